@@ -1,68 +1,139 @@
 (* C10 — Mini-batches partition the data and stay aligned with the affinity matrix.
-   Statements only; every proof is [exact <lemma of Proofs/Batch.v>]. *)
-From Coq Require Import List Arith.
-From GV Require Import Model.Batch Proofs.Batch.
+   Statements only; every proof is [exact <lemma of Proofs/Batch*.v>].
+   The theorems are about the CODE model (Model/Batch.v: start index j, Python slice [lo, hi), step, loop guard,
+   None default, which index array selects rows / affinity rows / affinity columns, which arrays a training step
+   reads, the weighting of the validation score) instantiated with the rules REGENERATED from the Python AST
+   (Gen/BatchRules.v: batch_rules, fit_rules, path_step_rules, deco_rules, val_rules).
+   P m stands for numpy's random_state.permutation(m); a code-model result None means "out of fuel". *)
+From Coq Require Import List Arith ZArith Reals.
+From GV Require Import Common.Num Common.NumR Model.Batch Gen.BatchRules Proofs.Batch Proofs.BatchVal Proofs.BatchGen.
 Import ListNotations.
 
-(* disjoint, cover each sample exactly once, at most batch_size rows, ceil(n/bs) batches *)
-Theorem C10_partition : forall n bs perm, 1 <= bs -> is_perm_of_range n perm ->
-  concat (batches bs perm) = perm /\
-  Forall (fun b => 1 <= length b <= bs) (batches bs perm) /\
-  length (batches bs perm) = (n + bs - 1) / bs /\
-  (forall i, i < n -> exists! j, j < length (batches bs perm) /\ In i (nth j (batches bs perm) [])).
-Proof. exact batches_partition. Qed.
+(* the regenerated holes are the documented ones (hand-written copy in Proofs/BatchGen.v): drift is visible here *)
+Theorem C10_regenerated_rules_are_documented :
+  batch_rules = documented_batch_rules /\ fit_rules = documented_fit_rules /\
+  path_step_rules = documented_step_rules /\ deco_rules = documented_deco_rules /\
+  (forall (T : Type) (o : NumOps T), val_rules o = documented_val_rules o).
+Proof. exact regenerated_rules_are_documented. Qed.
+
+(* the index arithmetic of _batchify yields exactly the consecutive chunks of the permutation, each delivered as
+   (rows of X, (rows, columns) of the affinity) = (b, (b, b)) *)
+Theorem C10_batchify_is_chunks : forall n bs P, 1 <= eff_bs n bs -> length (P (Z.of_nat n)) = n ->
+  code_batchify batch_rules n bs P = Some (map (fun b => (b, (b, b))) (batches (eff_bs n bs) (P (Z.of_nat n)))).
+Proof. exact gen_batchify_is_batches. Qed.
+
+(* disjoint, cover each sample exactly once, at most batch_size rows, ceil(n/bs) batches; the loop terminates *)
+Theorem C10_partition : forall n bs P, 1 <= eff_bs n bs -> is_perm_of_range n (P (Z.of_nat n)) ->
+  exists Y, code_batchify batch_rules n bs P = Some Y /\
+    let Bs := map fst Y in
+    concat Bs = P (Z.of_nat n) /\
+    Forall (fun b => 1 <= length b <= eff_bs n bs) Bs /\
+    length Bs = (n + eff_bs n bs - 1) / eff_bs n bs /\
+    (forall i, i < n -> exists! j, j < length Bs /\ In i (nth j Bs [])).
+Proof. exact gen_partition. Qed.
 
 (* every batch but the last holds exactly batch_size rows *)
-Theorem C10_full_batches : forall bs perm j, 1 <= bs -> S j < length (batches bs perm) ->
-  length (nth j (batches bs perm) []) = bs.
-Proof. exact batches_all_but_last_full. Qed.
+Theorem C10_full_batches : forall n bs P Y j, 1 <= eff_bs n bs -> length (P (Z.of_nat n)) = n ->
+  code_batchify batch_rules n bs P = Some Y -> S j < length Y ->
+  length (fst (nth j Y ([], ([], [])))) = eff_bs n bs.
+Proof. exact gen_full_batches. Qed.
 
-(* the affinity block delivered with batch j is exactly the rows and columns of the full affinity
-   that belong to the batch's samples, in the same order as the data rows of the batch *)
-Theorem C10_block_alignment : forall (T : Type) (A : nat -> nat -> T) bs perm j a b, 1 <= bs ->
-  let B := nth j (batches bs perm) [] in
-  j < length (batches bs perm) -> a < length B -> b < length B ->
-  block A B a b = A (nth (j * bs + a) perm 0) (nth (j * bs + b) perm 0).
-Proof. exact @block_alignment. Qed.
+(* the affinity block delivered with batch j is exactly the rows and columns of the full affinity that belong to
+   the batch's samples, in the same order as the data rows of the batch: element a of the batch is element
+   j*bs+a of the permutation for data rows, affinity rows and affinity columns alike *)
+Theorem C10_alignment : forall (T : Type) (A : nat -> nat -> T) (X : nat -> T) (d : T) n bs P Y j a b,
+  1 <= eff_bs n bs -> length (P (Z.of_nat n)) = n -> code_batchify batch_rules n bs P = Some Y -> j < length Y ->
+  let y := nth j Y ([], ([], [])) in
+  let perm := P (Z.of_nat n) in
+  a < length (fst y) -> b < length (fst y) ->
+  length (fst (snd y)) = length (fst y) /\ length (snd (snd y)) = length (fst y) /\
+  nth a (rows X (fst y)) d = X (nth (j * eff_bs n bs + a) perm 0) /\
+  block2 A (fst (snd y)) (snd (snd y)) a b
+    = A (nth (j * eff_bs n bs + a) perm 0) (nth (j * eff_bs n bs + b) perm 0).
+Proof. exact gen_alignment. Qed.
 
-Theorem C10_rows_alignment : forall (T : Type) (X : nat -> T) (d : T) bs perm j a, 1 <= bs ->
-  let B := nth j (batches bs perm) [] in
-  j < length (batches bs perm) -> a < length B ->
-  nth a (rows X B) d = X (nth (j * bs + a) perm 0).
-Proof. exact @rows_alignment. Qed.
+(* fit performs max_iter * ceil(n / batch_size) optimiser steps; step k of epoch e runs _infer, the GEMINI and
+   _compute_grads on the rows / affinity block of the k-th chunk of that epoch's permutation *)
+Theorem C10_steps : forall max_iter n bs (P : nat -> Z -> list nat), 1 <= eff_bs n bs ->
+  (forall e, e < max_iter -> is_perm_of_range n (P e (Z.of_nat n))) ->
+  exists tr, code_fit_trace batch_rules fit_rules max_iter n bs P = Some tr /\
+    length tr = max_iter * ((n + eff_bs n bs - 1) / eff_bs n bs) /\
+    tr = concat (map (fun e => map (fun b => (b, ((b, b), b))) (batches (eff_bs n bs) (P e (Z.of_nat n))))
+                     (seq 0 max_iter)).
+Proof. exact gen_steps. Qed.
 
-(* fit performs max_iter * ceil(n / batch_size) optimiser steps *)
-Theorem C10_steps : forall max_iter n bs perms, 1 <= eff_bs n bs ->
-  (forall e, e < max_iter -> is_perm_of_range n (perms e)) ->
-  fit_steps max_iter n bs perms = max_iter * ((n + eff_bs n bs - 1) / eff_bs n bs).
-Proof. exact fit_steps_count. Qed.
+(* fit reports n_iter_ = max_iter *)
+Theorem C10_n_iter : forall max_iter : Z, code_n_iter fit_rules max_iter = max_iter.
+Proof. exact gen_n_iter. Qed.
 
-(* constraint decoration records the true sample indices of each batch *)
-Theorem C10_decorated_indices : forall n bs perm, is_perm_of_range n perm ->
-  Forall (fun p => fst p = snd p) (decorated_epoch n bs perm).
-Proof. exact decorated_indices_true. Qed.
+(* every epoch of the training loop of path() makes the same steps on the same chunks *)
+Theorem C10_path_epoch : forall n bs P, 1 <= eff_bs n bs -> length (P (Z.of_nat n)) = n ->
+  code_path_epoch batch_rules path_step_rules n bs P
+  = Some (map (fun b => (b, ((b, b), b))) (batches (eff_bs n bs) (P (Z.of_nat n)))).
+Proof. exact gen_path_epoch. Qed.
 
-(* nonparametric models always see the full data, once *)
+(* constraint decoration: the recorded indices are the true sample indices of the rows it yields, which are the
+   chunks of the permutation, and the affinity block it passes on belongs to the same samples *)
+Theorem C10_decorated_indices : forall n bs P, 1 <= eff_bs n bs -> is_perm_of_range n (P (Z.of_nat n)) ->
+  exists Y, code_decorated batch_rules deco_rules n bs P = Some Y /\
+    map (fun p => fst (snd p)) Y = batches (eff_bs n bs) (P (Z.of_nat n)) /\
+    Forall (fun p => fst p = fst (snd p) /\ fst (snd (snd p)) = fst p /\ snd (snd (snd p)) = fst p) Y.
+Proof. exact gen_decorated_indices. Qed.
+
+(* nonparametric models always see the full data, once (CategoricalModel._batchify is matched literally by the
+   translator; there is no hole to regenerate) *)
 Theorem C10_categorical_full : forall n, concat (cat_epoch n) = seq 0 n /\ length (cat_epoch n) = 1.
 Proof. exact cat_epoch_full. Qed.
 
-(* the sequential validation blocks of path() cover every sample exactly once as well *)
-Theorem C10_val_blocks : forall n bs, 1 <= bs ->
+(* the sequential validation blocks of path(): X[j:j+bs] with y[j:j+bs][:, j:j+bs], covering every sample once *)
+Theorem C10_val_blocks : forall (T : Type) (o : NumOps T) n bs, 1 <= bs ->
+  code_val_blocks (val_rules o) n (Z.of_nat bs) = Some (map (fun b => (b, (b, b))) (val_blocks n bs)) /\
   concat (val_blocks n bs) = seq 0 n /\ length (val_blocks n bs) = (n + bs - 1) / bs.
 Proof.
-  intros n bs Hbs. destruct (batches_partition n bs (seq 0 n) Hbs (seq_is_perm n)) as (H1 & _ & H3 & _).
-  exact (conj H1 H3).
+  intros T o n bs Hbs. split; [exact (gen_val_blocks T o n bs Hbs)|].
+  destruct (batches_partition n bs (seq 0 n) Hbs (seq_is_perm n)) as (H1 & _ & H3 & _). exact (conj H1 H3).
 Qed.
 
-(* non-vacuity: the hypotheses are met by a concrete non-trivial state *)
-Example C10_nonvacuous : is_perm_of_range 5 [3; 0; 4; 1; 2] /\ batches 2 [3; 0; 4; 1; 2] = [[3; 0]; [4; 1]; [2]].
-Proof. split; [|reflexivity]. repeat split; [repeat constructor; simpl; intuition discriminate | repeat constructor]. Qed.
+(* the validation score is the len-weighted mean of the block scores: sum_b score_b * |b| / n ... *)
+Theorem C10_val_score_weighted_mean : forall n bs (g : list nat -> list nat -> list nat -> R), 1 <= bs ->
+  code_val_score (val_rules Rops) n (Z.of_nat bs) g
+  = Some (fold_right Rplus 0%R (map (fun b => (g b b b * INR (length b))%R) (val_blocks n bs)) / INR n)%R.
+Proof. exact gen_val_score. Qed.
 
+(* ... as path() calls it (batch_size None means one block of n rows) ... *)
+Theorem C10_path_val_score : forall n bs (g : list nat -> list nat -> list nat -> R), 1 <= eff_bs n bs ->
+  code_path_val_score (val_rules Rops) n bs g = Some (weighted_mean n (eff_bs n bs) g).
+Proof. exact gen_path_val_score. Qed.
+
+(* ... whose weights |b| / n sum to one: it lies between the smallest and the largest block score, and equal
+   block scores give that score whatever the block sizes *)
+Theorem C10_val_score_is_a_mean : forall n bs g lo hi, 1 <= bs -> 1 <= n ->
+  fold_right Rplus 0%R (map (fun b => INR (length b)) (val_blocks n bs)) = INR n /\
+  ((forall b, In b (val_blocks n bs) -> (lo <= g b b b <= hi)%R) -> (lo <= weighted_mean n bs g <= hi)%R).
+Proof. intros n bs g lo hi Hbs Hn. split; [exact (val_weights_sum n bs Hbs) | exact (weighted_mean_bounds n bs g lo hi Hbs Hn)]. Qed.
+
+(* non-vacuity: the hypotheses are met by a concrete non-trivial state, and the code model computes on it *)
+Example C10_nonvacuous :
+  is_perm_of_range 5 [3; 0; 4; 1; 2] /\ batches 2 [3; 0; 4; 1; 2] = [[3; 0]; [4; 1]; [2]] /\
+  code_batchify batch_rules 5 (Some 2) (fun _ => [3; 0; 4; 1; 2])
+  = Some [([3; 0], ([3; 0], [3; 0])); ([4; 1], ([4; 1], [4; 1])); ([2], ([2], [2]))] /\
+  code_val_blocks (val_rules Rops) 5 2 = Some [([0; 1], ([0; 1], [0; 1])); ([2; 3], ([2; 3], [2; 3])); ([4], ([4], [4]))].
+Proof.
+  split; [|split; [reflexivity|split; vm_compute; reflexivity]].
+  repeat split; [repeat constructor; simpl; intuition discriminate | repeat constructor].
+Qed.
+
+Print Assumptions C10_regenerated_rules_are_documented.
+Print Assumptions C10_batchify_is_chunks.
 Print Assumptions C10_partition.
 Print Assumptions C10_full_batches.
-Print Assumptions C10_block_alignment.
-Print Assumptions C10_rows_alignment.
+Print Assumptions C10_alignment.
 Print Assumptions C10_steps.
+Print Assumptions C10_n_iter.
+Print Assumptions C10_path_epoch.
 Print Assumptions C10_decorated_indices.
 Print Assumptions C10_categorical_full.
 Print Assumptions C10_val_blocks.
+Print Assumptions C10_val_score_weighted_mean.
+Print Assumptions C10_path_val_score.
+Print Assumptions C10_val_score_is_a_mean.
